@@ -101,7 +101,10 @@ class C04(Prop):
                     if kind == "sparse_nan" and rng.random() < 0.6: x = None
                     row.append(x)
                 W.append(row)
-            yield dict(entry="MaximumWeightMatching.scf", family=kind, W=W, zi=bool(i % 2), itype=(kind == "int" and i % 3 == 0))
+            c = dict(entry="MaximumWeightMatching.scf", family=kind, W=W, zi=bool(i % 2), itype=(kind == "int" and i % 3 == 0))
+            if kind == "int":     # integer-valued profiles in every integer encoding a caller may hold them in (IntegerValuationProfile)
+                c["itype"] = ["int64", None, "uint8", "int32", "uint16", None, "uint32", "int8", "uint64", "int16"][i % 10]
+            yield c
 
     def shrink(self, case):
         W = case["W"]; n = len(W)
@@ -114,12 +117,14 @@ class C04(Prop):
         from socialchoicekit.deterministic_allocation import MaximumWeightMatching
         from socialchoicekit.profile_utils import ValuationProfile
         if case.get("itype"):
-            A = np.array(case["W"]).astype(int)
+            A = np.array(case["W"]).astype(int if case["itype"] is True else case["itype"])
         else:
             A = np.array([[np.nan if x is None else x for x in row] for row in case["W"]], dtype=float)
         A0 = A.copy()
         def go():
-            out = MaximumWeightMatching(zero_indexed=case["zi"]).scf(ValuationProfile.of(A))
+            from socialchoicekit.profile_utils import IntegerValuationProfile
+            prof = IntegerValuationProfile.of(A) if (case.get("itype") and case["itype"] is not True) else ValuationProfile.of(A)
+            out = MaximumWeightMatching(zero_indexed=case["zi"]).scf(prof)
             return [int(x) for x in np.asarray(out).tolist()], (A.tobytes() != A0.tobytes())
         # forked worker: the solver is C/C++ code, a hang there cannot be interrupted by a Python-level alarm
         r = supervised_fork(go, self.deadline)
